@@ -86,8 +86,7 @@ def u_subdiff_sep(h, name, ws):
         if meta.get('positive'):
             infeasible = h.lt(w[j], 0)
         if meta.get('box') is not None:
-            # the property specifies the score at feasible points only (and +inf for *positivity* flags)
-            h.assume(h.and_(h.ge(w[j], 0), h.le(w[j], meta['box'])))
+            infeasible = h.or_(h.lt(w[j], 0), h.gt(w[j], meta['box']))
         if bool(infeasible):
             h.ensure('score[%d]-infinite-when-infeasible' % idx, _isinf(score[idx]) and score[idx] > 0)
             continue
